@@ -1,6 +1,7 @@
 """C09 — alternative distance algorithms (structural clauses)."""
 from ..core.report import DOMAIN_D
-from ..rules import nesterov, johnson, mink, loops
+from ..rules import nesterov, johnson, mink, loops, frame
+from .common import e2
 
 N1 = "distance3d.gjk._gjk_nesterov_accelerated"
 N2 = "distance3d.gjk._gjk_nesterov_accelerated_primitives"
@@ -23,3 +24,4 @@ def run(idx, rep, tier):
     johnson.r_johnson(idx, rep)
     mink.r_mink(idx, rep, modules=[N1, N2, O], floor=4)
     loops.r_loop(idx, rep, [N1, N2, O], floor=5)
+    frame.r_frame(idx, rep, e2(idx), modules={N1, N2}, floor=10)      # relative pose oR1 / ot1 of collider 1 in collider 0's frame
